@@ -439,6 +439,22 @@ fn run_rpc_case(c: &PathCase, fields: &[String], agg: &mut Agg, verbose: bool) {
         }
         Ok(Ok(p)) => {
             agg.inc("path-rpc:Ok");
+            // lossless: fields that were consumed (metadata present) must fit their target type
+            if p.metadata().is_some() {
+                let mut oor = vec![];
+                if c.msg.mtu > u16::MAX as u32 {
+                    oor.push("path.mtu");
+                }
+                if c.msg.interfaces.iter().any(|i| i.id > u16::MAX as u64) {
+                    oor.push("path.interfaces.id");
+                }
+                if c.msg.expiration.is_some_and(|t| t.seconds < 0) {
+                    oor.push("path.expiration");
+                }
+                for f in oor {
+                    agg.find(format!("rpc-out-of-range-field-accepted:{f}"), format!("daemon::Path whose {f} does not fit the target type converts Ok (value silently changed) - mutated {fields:?}"), wit());
+                }
+            }
             if verbose {
                 println!("  try_from_rpc = Ok({p:?})");
             }
